@@ -26,7 +26,7 @@ RULE = ('part X: every hierarchy of n<=N classes in definition order where class
 ASSUME = ['CPython 3.12 type() is the reference for linearisation; inspect.getdoc for inherited docstrings',
           'classes whose creation CPython refuses for a reason propagated from an earlier refused class are not judged']
 DECIDING = {'project_classes_judged': 2000, 'classes_judged': 3000, 'inconsistent_judged': 50, 'find_compared': 3000, 'doc_compared': 1000,
-            'tables_compared': 100, 'overrides_compared': 100, 'rendered_doc_compared': 1000, 'page_tables_compared': 500, 'reexported_classes': 100}
+            'tables_compared': 100, 'overrides_compared': 100, 'rendered_doc_compared': 1000, 'page_tables_compared': 500, 'hierarchies_with_hidden_members': 30, 'reexported_classes': 100}
 CPU_S = 900
 
 MEMBERS = ['m0', 'm1', 'v0']
@@ -298,7 +298,7 @@ def _cpython(mods: Dict[str, str], entry: Optional[List[str]] = None) -> Tuple[D
 
 # ------------------------------------------------------------------------------------------------
 
-def _judge(res: core.Res, mods: Dict[str, str], label: str, final: Optional[Dict[str, str]] = None, entry: Optional[List[str]] = None) -> None:
+def _judge(res: core.Res, mods: Dict[str, str], label: str, final: Optional[Dict[str, str]] = None, entry: Optional[List[str]] = None, hide: Any = None) -> None:
     from pydoctor import model
     from pydoctor.templatewriter import util
     from pydoctor.templatewriter import pages
@@ -306,13 +306,18 @@ def _judge(res: core.Res, mods: Dict[str, str], label: str, final: Optional[Dict
     from vf.mon import msgs
     classes, failed = _cpython(mods, entry)
     try:
-        _judge2(res, mods, label, classes, failed, final or {})
+        hidden: set = set()
+        if hide is not None:
+            # one or two members are hidden by an exact privacy rule: a hidden definition is not listed, and still is the one that counts
+            cand = sorted((full, m) for full, c_ in classes.items() for m in MEMBERS if m in c_.__dict__)
+            hidden = {f'{(final or {}).get(full, full)}.{m}' for full, m in hide.sample(cand, min(len(cand), hide.randint(1, 2)))}
+        _judge2(res, mods, label, classes, failed, final or {}, hidden)
     finally:
         for m in mods:
             sys.modules.pop(m, None)
 
 
-def _judge2(res: core.Res, mods: Dict[str, str], label: str, classes: Dict[str, Any], failed: Dict[str, str], final: Dict[str, str]) -> None:
+def _judge2(res: core.Res, mods: Dict[str, str], label: str, classes: Dict[str, Any], failed: Dict[str, str], final: Dict[str, str], hidden: Any = frozenset()) -> None:
     # final: run-time name -> documented name, for classes a re-exporting module moves
     inv = {v: k for k, v in final.items()}
 
@@ -330,6 +335,9 @@ def _judge2(res: core.Res, mods: Dict[str, str], label: str, classes: Dict[str, 
     from twisted.web.template import tags, slot
     system = model.System()
     system.options.verbosity = -10
+    system.options.privacy = [(model.PrivacyClass.HIDDEN, n_) for n_ in sorted(hidden)]
+    if hidden:
+        res.c('hierarchies_with_hidden_members')
     b = system.systemBuilder(system)
     for name, src in mods.items():
         b.addModuleString(src, name)
@@ -467,7 +475,7 @@ def _judge2(res: core.Res, mods: Dict[str, str], label: str, classes: Dict[str, 
         texp = []
         seen: set = set()
         for c in gen_mro:
-            own_names = [m for m in MEMBERS if m in c.__dict__ and m not in seen]
+            own_names = [m for m in MEMBERS if m in c.__dict__ and m not in seen and f'{F(Q(c))}.{m}' not in hidden]
             seen.update(m for m in MEMBERS if m in c.__dict__)
             if own_names:
                 texp.append((F(Q(c)), sorted(own_names)))
@@ -618,7 +626,7 @@ def run_case(case: Dict[str, Any]) -> core.Res:
     else:
         for j in range(case['n']):
             mods = _gen_random(case['seed'], case['k'] + j)
-            _judge(res, mods, f"R:{case['seed']}:{case['k'] + j}")
+            _judge(res, mods, f"R:{case['seed']}:{case['k'] + j}", hide=core.rng('C05', 'hide', case['seed'], case['k'] + j) if (case['k'] + j) % 3 == 0 else None)
         res.sample({'random': {k: v[:400] for k, v in mods.items()}})
     return res
 
